@@ -1,14 +1,24 @@
-//@file anchor=lorawan-device/src/nb_device/state.rs
+//@file anchor=lorawan-device/src/nb_device/state.rs cfg=feature="region-eu868"
 // C06-H2 / C07-H4 / C10-H3: one step of the non-blocking state machine from an arbitrary state,
 // MAC replaced by contract stubs (ghost counter), radio answering any contract-legal response or
 // failing.
 use super::*;
 use crate::mac::{self as macm, SendData};
 
-static mut G_FCNT: u32 = 0;
-static mut G_INFLIGHT: bool = false; // a data frame built with G_FCNT was handed to the radio, counter not advanced yet
-static mut G_HANDED: u32 = 0; // TxRequests seen by the radio in this step
-static mut G_IS_DATA: bool = false; // the frame built in this step is a data frame
+/// Every harness static carries a unique tag: Kani resolves a *constant* whose bytes equal a
+/// static's initial bytes to that static (rustc interns allocations by content), so writing to a
+/// `static mut FLAG: bool = false` silently changed constants such as `DR::_0` in the code under
+/// test (found on macs_r0_linkadr2, see DESIGN 9.4).  Unique initial content rules this out.
+#[repr(C)]
+pub(crate) struct Uq<T> {
+    pub magic: u64,
+    pub v: T,
+}
+
+static mut G_FCNT: Uq<u32> = Uq { magic: 0x6C7276008EDEBAB2, v: 0 };
+static mut G_INFLIGHT: Uq<bool> = Uq { magic: 0x6C7276008816952D, v: false }; // a data frame built with G_FCNT.v was handed to the radio, counter not advanced yet
+static mut G_HANDED: Uq<u32> = Uq { magic: 0x6C7276001CCDA520, v: 0 }; // TxRequests seen by the radio in this step
+static mut G_IS_DATA: Uq<bool> = Uq { magic: 0x6C7276001089DF7D, v: false }; // the frame built in this step is a data frame
 
 fn any_rf() -> radio::RfConfig {
     radio::RfConfig {
@@ -29,14 +39,14 @@ fn stub_send<RNG: RngCore, const N: usize>(
         if kani::any() {
             return Err(macm::Error::NotJoined);
         }
-        G_IS_DATA = true;
-        Ok((radio::TxConfig { pw: kani::any(), rf: any_rf() }, any_windows(), G_FCNT))
+        G_IS_DATA.v = true;
+        Ok((radio::TxConfig { pw: kani::any(), rf: any_rf() }, any_windows(), G_FCNT.v))
     }
 }
 fn stub_join<RNG: RngCore, const N: usize>(
     _m: &mut Mac, _rng: &mut RNG, _c: macm::NetworkCredentials, _buf: &mut RadioBuffer<N>,
 ) -> (radio::TxConfig, RxWindows, u16) {
-    unsafe { G_IS_DATA = false; }
+    unsafe { G_IS_DATA.v = false; }
     (radio::TxConfig { pw: kani::any(), rf: any_rf() }, any_windows(), kani::any())
 }
 fn stub_handle_rx<const N: usize, const D: usize>(
@@ -45,30 +55,30 @@ fn stub_handle_rx<const N: usize, const D: usize>(
     unsafe {
         if kani::any() {
             macm::Response::NoUpdate
-        } else if G_FCNT == u32::MAX {
-            G_INFLIGHT = false; // expiry is reported
+        } else if G_FCNT.v == u32::MAX {
+            G_INFLIGHT.v = false; // expiry is reported
             macm::Response::SessionExpired
         } else {
-            G_FCNT += 1;
-            G_INFLIGHT = false;
+            G_FCNT.v += 1;
+            G_INFLIGHT.v = false;
             macm::Response::DownlinkReceived(kani::any())
         }
     }
 }
 fn stub_rx2_complete(_m: &mut Mac) -> macm::Response {
     unsafe {
-        G_INFLIGHT = false;
-        if G_FCNT == u32::MAX {
+        G_INFLIGHT.v = false;
+        if G_FCNT.v == u32::MAX {
             macm::Response::SessionExpired
         } else {
-            G_FCNT += 1;
+            G_FCNT.v += 1;
             if kani::any() { macm::Response::NoAck } else { macm::Response::RxComplete }
         }
     }
 }
-static mut G_DELAY: u32 = 1000; // the negotiated RX1 delay (fixed during a step)
+static mut G_DELAY: Uq<u32> = Uq { magic: 0x6C7276008ECE3401, v: 1000 }; // the negotiated RX1 delay (fixed during a step)
 fn stub_get_rx_delay(_m: &Mac, frame: &Frame, w: &Window) -> u32 {
-    let d: u32 = match frame { Frame::Join => 5000, Frame::Data => unsafe { G_DELAY } };
+    let d: u32 = match frame { Frame::Join => 5000, Frame::Data => unsafe { G_DELAY.v } };
     match w { Window::_1 => d, Window::_2 => d + 1000 }
 }
 
@@ -87,9 +97,9 @@ impl radio::PhyRxTx for NbRadio {
     fn handle_event(&mut self, event: radio::Event<'_, Self>) -> Result<radio::Response<Self>, ()> {
         if let radio::Event::TxRequest(_, _) = event {
             unsafe {
-                G_HANDED += 1;
-                if G_IS_DATA {
-                    G_INFLIGHT = true;
+                G_HANDED.v += 1;
+                if G_IS_DATA.v {
+                    G_INFLIGHT.v = true;
                 }
             }
         }
@@ -153,14 +163,14 @@ fn nb_step(st: u8) {
     let delay_s: u32 = kani::any();
     kani::assume(delay_s >= 1 && delay_s <= 15);
     unsafe {
-        G_DELAY = delay_s * 1000;
-        G_FCNT = start;
-        G_HANDED = 0;
-        G_IS_DATA = false;
+        G_DELAY.v = delay_s * 1000;
+        G_FCNT.v = start;
+        G_HANDED.v = 0;
+        G_IS_DATA.v = false;
         // invariant I-cnt: Idle => nothing in flight; otherwise a data frame may be in flight
-        G_INFLIGHT = if st == 0 { false } else { is_data && kani::any() };
+        G_INFLIGHT.v = if st == 0 { false } else { is_data && kani::any() };
     }
-    let inflight0 = unsafe { G_INFLIGHT };
+    let inflight0 = unsafe { G_INFLIGHT.v };
     let windows = any_windows();
     let window = any_rx();
     let rf = any_rf();
@@ -189,16 +199,16 @@ fn nb_step(st: u8) {
         // ---- C06: invariant preserved -- back in Idle (the only state that accepts a new send)
         // means the counter of a frame handed to the radio has been consumed or expiry reported
         if let State::Idle(_) = next {
-            crate::vcheck!(!G_INFLIGHT, "C06: back in Idle although the frame handed to the radio has not consumed its counter: the next uplink reuses it");
+            crate::vcheck!(!G_INFLIGHT.v, "C06: back in Idle although the frame handed to the radio has not consumed its counter: the next uplink reuses it");
         }
-        crate::vcheck!(G_FCNT == start || G_FCNT == start.wrapping_add(1), "C06: a step consumes at most one counter value");
-        crate::vcheck!(G_HANDED <= 1, "C06: at most one frame is handed to the radio per step");
+        crate::vcheck!(G_FCNT.v == start || G_FCNT.v == start.wrapping_add(1), "C06: a step consumes at most one counter value");
+        crate::vcheck!(G_HANDED.v <= 1, "C06: at most one frame is handed to the radio per step");
         if st != 0 {
-            crate::vcheck!(G_HANDED == 0, "C06: no new frame is handed to the radio while a transaction is in progress");
+            crate::vcheck!(G_HANDED.v == 0, "C06: no new frame is handed to the radio while a transaction is in progress");
         }
         // errors leave the machine able to complete: never Idle with the frame still in flight
         if result.is_err() && st != 0 {
-            crate::vcheck!(!matches!(next, State::Idle(_)) || !inflight0 || !G_INFLIGHT, "C06: an error must not abandon an in-flight frame");
+            crate::vcheck!(!matches!(next, State::Idle(_)) || !inflight0 || !G_INFLIGHT.v, "C06: an error must not abandon an in-flight frame");
         }
     }
     // ---- C07: a frame the MAC does not accept keeps the receive window open, unchanged
